@@ -27,9 +27,25 @@ func init() {
 		k.PSave = 15
 		k.PNegBal = 18
 		k.PBounded = 22
+		k.PBalanceOrigin = 20
+		k.PReuse = 35
+		k.OverdraftFlag = gen.Chance(t, "odflag", 30)
 		if tier == "thorough" {
 			k.MaxDepth = 4
 			k.MaxStmts = 6
+		}
+		if gen.Chance(t, "dense", 30) {
+			// dense mode: two accounts x two assets, many negative balances, bounded overdrafts
+			// and balance() variables, so that the same account is asked for several assets at
+			// different moments
+			k.Accounts = []string{"a", "b"}
+			k.Assets = []string{"USD", "EUR"}
+			k.EvenAssets = true
+			k.PBalanceOrigin = 70
+			k.PNegBal = 40
+			k.PBounded = 40
+			k.MaxDepth = 2
+			k.MinStmts = 2
 		}
 		return gen.NewTG(t, k).Case()
 	}
